@@ -291,6 +291,23 @@ func (r *runner) history(cfg histCfg) {
 				return
 			}
 			b.Count("header_vs_block_compared", 1)
+			if h%5 == 0 {
+				// the miner's own copy of the block carries a wall-clock timestamp with a sub-second part; ID and
+				// wire form know whole seconds only, so it is the same header and the same block
+				bh2, blk2 := bh, blk
+				bh2.Timestamp = bh.Timestamp.Add(437 * time.Millisecond)
+				blk2.Timestamp = bh2.Timestamp
+				var s1, s2 consensus.State
+				if !guard(keyp+"/ApplyHeader/sub-second/"+e.String(), wit, func() { s1 = consensus.ApplyHeader(hs, bh2, target) }) &&
+					!guard(keyp+"/ApplyBlock/sub-second/"+e.String(), wit, func() { s2, _ = consensus.ApplyBlock(bs, blk2, consensus.V1BlockSupplement{}, target) }) {
+					b.Count("header_vs_block_compared_with_sub_second_timestamp", 1)
+					if f := powFieldsDiff(next, s1); f != "" {
+						violate("header-vs-block/"+f+"/sub-second-in-memory-timestamp/ApplyHeader", fmt.Sprintf("ApplyHeader of the same header stamped 0.437 s later in memory (same ID) differs in %s at height %d", f, h), wit())
+					} else if f := powFieldsDiff(next, s2); f != "" {
+						violate("header-vs-block/"+f+"/sub-second-in-memory-timestamp/ApplyBlock", fmt.Sprintf("ApplyBlock of the same block stamped 0.437 s later in memory (same ID) differs from ApplyHeader in %s at height %d", f, h), wit())
+					}
+				}
+			}
 			if f := powFieldsDiff(next, nb); f != "" {
 				w := wit().(stepWitness)
 				d1, d2 := dump(next), dump(nb)
